@@ -1016,6 +1016,49 @@ fn run_stats_truth(ex: &mut Executor, spec: &ExecSpec, analysed: bool, label: &s
     use itsgen::walker::walk;
     let r = ex.exec(spec);
     let w = walk(&spec.input);
+    if let Some(rep) = spec.input_repeat.filter(|n| *n > 1) {
+        // a stream of several GiB (the input delivered `rep` times in a row): the counters that grow with
+        // the stream are the walker's values of one delivery times `rep`
+        let mut out = TrialOutcome {
+            nontrivial: r.outcome.threads >= 3,
+            key: case_key(&spec.input, &r),
+            labels: vec![label.to_string()],
+            ..Default::default()
+        };
+        ex.fault("stream_beyond_4_GiB");
+        if let Some(f) = check_orderly(&r) {
+            out.fail = Some(f);
+            return out;
+        }
+        let t = itsgen::walker::truth_stats(&w, crate::t_stream::filter_of_argv(&spec.argv));
+        let st = r.stats_file.as_ref().and_then(|b| oracle::parse_stats(b, &spec.stats_ext));
+        let Some(st) = st else {
+            out.fail = Some(Fail::new("statistics", "no-statistics-file", format!("no statistics file [cmd: {}]", spec.cmdline())));
+            return out;
+        };
+        for (path, want) in [
+            (["rdh_stats", "rdhs_seen"], t.rdhs_seen * rep),
+            (["rdh_stats", "payload_size"], t.payload_size * rep),
+            (["rdh_stats", "hbfs_seen"], if analysed { t.hbfs * rep } else { 0 }),
+        ] {
+            let got = oracle::stats_u64(&st, &path);
+            if got != Some(want) {
+                out.fail = Some(Fail::new(
+                    "statistics",
+                    &format!("huge-stream-{}", path[1]),
+                    format!(
+                        "statistics file has {} = {got:?}, the stream ({} packets, {} payload bytes, delivered {rep} times) has {want} [cmd: {}]",
+                        path[1],
+                        t.rdhs_seen,
+                        t.payload_size,
+                        spec.cmdline()
+                    ),
+                ));
+                return out;
+            }
+        }
+        return out;
+    }
     let mut out = TrialOutcome {
         nontrivial: w.pkts.len() >= 2 && r.outcome.threads >= 3,
         key: case_key(&spec.input, &r),
